@@ -602,6 +602,6 @@ func CheckC13(c *C13Case, st *Stats) error {
 
 func init() {
 	Register("C13",
-		"native trees of map[string]any / []any / scalars (depth <= 4, empties and nil maps/slices included) with typed flavours ([]string, []int, map[string]float64, ...) and sized numbers (int8, uint16, int32, int64, float32) where the content allows; the container is built with NewObjectFrom/NewListFrom. Oracle: container content == tree; NativeDict/NativeSlice hold only map[string]any, []any and canonical scalars (reflective walk) and equal the tree bit-exactly (also for a container built with Add/Set); Dict()/Slice() have exactly the keys/indices with entries == Get (identity for containers). Then 1-6 modifications of one of four parties (container at any nested node; native export at any nested map/slice; Dict/Slice export; the source map/slice at any nested level): after each, every OTHER party's snapshot is unchanged. Non-trivial = tree depth >= 2 and at least one applied modification. Distinct = distinct FNV-64a hash of the case JSON.",
+		"native trees of map[string]any / []any / scalars (depth <= 4, empties and nil maps/slices included) with typed flavours ([]string, []int, map[string]float64, ...) and sized numbers (int8, uint16, int32, int64, float32) where the content allows; the container is built with NewObjectFrom/NewListFrom. Oracle: container content == tree; NativeDict/NativeSlice hold only map[string]any, []any and canonical scalars (reflective walk) and equal the tree bit-exactly (also for a container built with Add/Set); Dict()/Slice() have exactly the keys/indices with entries == Get (identity for containers). Then 1-6 modifications of one of four parties (container at any nested node; native export at any nested map/slice; Dict/Slice export; the source map/slice at any nested level): after each, every OTHER party's snapshot is unchanged. After every modification fresh exports must describe the container as it is then. One case in six additionally stores one container instance at two positions, and wraps nested containers in user-defined derived types: the native export must still be plain data equal to the content. Non-trivial = tree depth >= 2 and at least one applied modification, or the shared-instance variant. Distinct = distinct FNV-64a hash of the case JSON.",
 		GenC13, CheckC13)
 }
